@@ -38,8 +38,26 @@ func HarnessC17TLSStall() {
 	case 2:
 		opts = append(opts, WithSSL())
 	}
+	// the configured port answers, or it is closed and the fallback port reaches the server
+	refuse := 0
+	if svPick("dial-route", 2) == 1 {
+		refuse = 1
+		switch policy {
+		case 0:
+			// no fallback port under the mandatory policy: the dial fails
+			opts = append(opts, WithTLSPortPolicy(TLSMandatory))
+		case 1:
+			opts = append(opts, WithTLSPortPolicy(TLSOpportunistic))
+		case 2:
+			opts = append(opts, WithSSLPort(true))
+		}
+	}
 	under := &hxConn{s: s}
 	opts = append(opts, WithDialContextFunc(func(ctx context.Context, network, address string) (net.Conn, error) {
+		if refuse > 0 {
+			refuse--
+			return nil, &hxNetErr{"dial tcp " + address + ": connect: connection refused"}
+		}
 		if policy == 2 {
 			return tls.Client(under, &tls.Config{ServerName: host, MinVersion: tls.VersionTLS12}), nil
 		}
